@@ -39,6 +39,7 @@ type RunConfig struct {
 	Liars         int     `json:"liars"`
 	Byz           int     `json:"byz"`
 	PCommitSubmit float64 `json:"p_commit_submit"`
+	Quorumless    bool    `json:"quorumless"`
 	TxStyle       string  `json:"tx_style"` // "unique" | "mixed"
 	FairSuffix    bool    `json:"fair_suffix"`
 	Shadow        int     `json:"shadow"` // shadow-bootstrap checks per run (C11)
@@ -226,7 +227,7 @@ func (c *Cluster) genStep(g *genState) *Step {
 		if len(sil) > 0 && r.Bool(0.5) {
 			return &Step{Op: "unsilence", A: sil[r.Intn(len(sil))].idx}
 		}
-		if len(alive) > 0 && c.countUnavailable() < maxSilent(c.currentValidatorCount()) {
+		if len(alive) > 0 && (c.cfg.Quorumless || c.countUnavailable() < maxSilent(c.currentValidatorCount())) {
 			return &Step{Op: "silence", A: alive[r.Intn(len(alive))].idx}
 		}
 	case pick(cfg.PSyncLimit):
